@@ -112,6 +112,13 @@ def run(prop, repo, rep):
                 print("ANALYSIS-ERROR property=%s checker self-test: behaviour-preserving change set %s breaks the analysis: %s" % (prop, bid, data))
                 return 2, extra
             new = {tuple(x) for x in data} - base_keys
+            exp_p = os.path.join(os.path.dirname(patch), "expected_findings.json")
+            if new and os.path.exists(exp_p):
+                import json
+                tolerated = {tuple(x[1:]) for x in json.load(open(exp_p)).get("findings", []) if x and x[0] == prop}
+                if new & tolerated:
+                    rep.notes.append("thorough: %s: %d documented false alarm(s) left standing (see %s)" % (bid, len(new & tolerated), os.path.relpath(exp_p, VERIF)))
+                new -= tolerated
             if new:
                 print("ANALYSIS-ERROR property=%s checker self-test: false alarm on the behaviour-preserving change set %s: %s"
                       % (prop, bid, sorted(new)[0]))
